@@ -113,6 +113,10 @@ func build(r *hx.Rand, proto string, pre []int, seq []int, lockstep bool) Sessio
 // asyncShare lets a third of the queries, mutations and subscriptions of a session resolve their
 // payload through apifu.Go / apifu.Batch (async.go).
 func asyncShare(r *hx.Rand, s *Session) {
+	// … and 3 in 8 sessions offer something else than exactly their sub-protocol (multi.go: offers)
+	if k := r.Intn(16); k < 6 {
+		s.Offer = k + 1
+	}
 	for i := range s.Steps {
 		st := &s.Steps[i]
 		if st.Op == "frame" && st.F == "start" && st.Big == 0 && (st.Kind == "query" || st.Kind == "mutation" || st.Kind == "subscription") {
@@ -369,6 +373,35 @@ func asyncStream(r *hx.Rand, k int) Session {
 	return s
 }
 
+// multiClose: 2–4 connections open on the same API at the same time, each with live subscriptions,
+// all ended by ONE CloseHijackedConnections: every one of them must be closed by it.
+func multiClose(r *hx.Rand, k int) Session {
+	conn := func() Session {
+		s := Session{Proto: hx.Pick(r, []string{"ws", "tws"}), Ending: "sclose", Await: true, IDSet: r.Intn(len(idSetNames))}
+		s.Steps = append(s.Steps, Step{Op: "frame", F: "init-ok"})
+		for i, n := 0, r.Range(1, 3); i < n; i++ {
+			s.Steps = append(s.Steps, Step{Op: "frame", F: "start", ID: 1 + i, Kind: "subscription", Async: hx.Pick(r, []int{0, 0, 1, 2})})
+			if r.Bool() {
+				s.Steps = append(s.Steps, Step{Op: "ev", Src: -1})
+			}
+		}
+		if r.Bool() {
+			s.Steps = append(s.Steps, Step{Op: "frame", F: "start", ID: 9, Kind: "query"})
+		}
+		if r.Chance(1, 4) {
+			s.Steps = append(s.Steps, Step{Op: "frame", F: "stop", ID: 1})
+		}
+		s.Steps = append(s.Steps, Step{Op: "sync"})
+		return s
+	}
+	s := conn()
+	s.SlowStop = r.Chance(1, 3)
+	for i, n := 0, 1+k%3; i < n; i++ {
+		s.Peers = append(s.Peers, conn())
+	}
+	return s
+}
+
 func generate(h *harness) {
 	run := h.run
 	batchSize := 96
@@ -418,6 +451,9 @@ func generate(h *harness) {
 	flush()
 	for i, n := 0, run.Scale(48, 480); i < n; i++ {
 		push(asyncStream(run.Rand.Fork(), i))
+	}
+	for i, n := 0, run.Scale(60, 600); i < n; i++ {
+		push(multiClose(run.Rand.Fork(), i))
 	}
 	flush()
 	// slow reader: few at a time, each holds ~30 MB in flight
